@@ -303,6 +303,11 @@ func (bs *BinarySpray) NotifyNewBundle(bp BundleDescriptor) {
 			remainingCopies: bs.l,
 		}
 
+		// a bundle without a BinarySprayBlock may still have been received from a peer, which already has it
+		if pnBlock, err := bp.MustBundle().ExtensionBlock(bpv7.ExtBlockTypePreviousNodeBlock); err == nil {
+			metadata.sent = append(metadata.sent, pnBlock.Value.(*bpv7.PreviousNodeBlock).Endpoint())
+		}
+
 		bs.dataMutex.Lock()
 		bs.bundleData[bp.Id] = metadata
 		bs.dataMutex.Unlock()
